@@ -163,6 +163,17 @@ CO_ERR COSdoResponse(CO_SDO *srv)
         return (result);
     }
 
+    /* every initiate request addresses the object in the request */
+    if (((cmd & 0xE0) == 0x20) ||
+        ( cmd         == 0x40) ||
+        ((cmd & 0xF9) == 0xC0) ||
+        ((cmd & 0xE3) == 0xA0)) {
+        srv->Idx     = CO_GET_WORD(srv->Frm, 1);
+        srv->Sub     = CO_GET_BYTE(srv->Frm, 3);
+        srv->Obj     = 0;
+        srv->Seg.Dir = CO_SDO_SEG_NONE;
+    }
+
     /* expedited transfer */
     if ((cmd & 0xF2) == 0x22) {
         result = COSdoGetObject(srv, CO_SDO_WR);
